@@ -163,6 +163,11 @@ func runC04Sweep(r *simkit.Run) {
 	if sizerName == "bytes" && lo < 24 {
 		lo = 24
 	}
+	if sizerName == "bytes" && total > 170 && tp.Chance(1, 3) {
+		// a length prefix grows from one byte to two at 128 bytes: a window around that size
+		r.Count("probe.sweep_around_128")
+		lo = 128 - 40 + tp.Draw(30)
+	}
 	if sizerName == "bytes" && tp.Chance(1, 10) {
 		// the next growth of a length prefix is at 16384 bytes: one long flat payload and a window around that size
 		r.Count("probe.sweep_around_16384")
